@@ -73,6 +73,9 @@ class ArmDomain(FactDomain):
         it = src(node.iter)
         if it.startswith('range(') and ('num_dof' in it or 'len(self._theta)' in it):
             return False
+        # iterating over the columns of a per-joint table (enumerate(self.screw_list.T ...), zip of such): one round per joint, num_dof >= 1
+        if ('self.screw_list' in it or 'self._theta' in it or 'self.joint_mins' in it) and ('num_dof' in it or '.T' in it or 'enumerate(' in it or 'zip(' in it):
+            return False
         return True
 
     def user_store(self, target, value, stmt, facts, user):
@@ -100,6 +103,13 @@ class ArmDomain(FactDomain):
                 marks = {m for m in marks if m[0] != 'orig'}
         if f == BODY and value is not None:
             txt = src(self.inliner().expand(value))         # a hoisted Adjoint(inv(home)) is the same refresh
+            # a loop variable running over the columns of the space screw table stands for that table
+            par = self.fi.module.parents.get(stmt)
+            names_v = {n.id for n in ast.walk(value) if isinstance(n, ast.Name)}
+            while par is not None and par is not self.fi.node:
+                if isinstance(par, ast.For) and names_v & {n.id for n in ast.walk(par.target) if isinstance(n, ast.Name)}:
+                    txt += ' <- ' + src(par.iter)
+                par = self.fi.module.parents.get(par)
             if 'Adjoint' in txt and '_end_effector_home' in txt and 'inv()' in txt and 'screw_list' in txt:
                 marks = {m for m in marks if m[0] != 'body'}
             else:
